@@ -267,3 +267,41 @@ func C06Sequence() {
 	sym.Assert(probe.count() == 0, "unauthenticated-message-reached-service")
 	sym.Reach("sequence-done")
 }
+
+// C06History: what an earlier, legitimately authenticated connection leaves behind must not help a
+// later one: (a) after B authenticated with (U,T), connection A presents a DIFFERENT pair (symbolic
+// strings of 1..3 bytes, so every way of splitting or joining the two is covered); (b) B authenticates,
+// is served and goes away, then a new connection talks to the probe service without authenticating.
+func C06History() {
+	goodU := sym.Str("good-user", 1+sym.Choose("good-user-len", 3))
+	goodT := sym.Str("good-token", 1+sym.Choose("good-token-len", 3))
+	auth := &zzAuth{user: goodU, token: goodT}
+	l := newZZListener()
+	srv, _ := StandAloneServer(l, auth, PrivateNamespace())
+	probe := &zzProbe{}
+	srv.NewService("probe", probe)
+	b := l.connect()
+	good := CapabilityMap{KeyUser: value.String(goodU), KeyToken: value.String(goodT)}
+	b.inject(zzFrame(net.Call, 0, 0, 8, 100, zzCapPayload(good)))
+	sym.Quiesce()
+	b.inject(zzFrame(net.Call, 1, 1, 0, 101, nil))
+	sym.Quiesce()
+	sym.Assert(probe.count() == 1, "legitimate-connection-not-served")
+	if sym.Bool("first-connection-goes-away") {
+		b.peerClose()
+		sym.Quiesce()
+	}
+	a := l.connect()
+	if sym.Bool("present-other-credentials") {
+		u := sym.Str("user", 1+sym.Choose("user-len", 3))
+		t := sym.Str("token", 1+sym.Choose("token-len", 3))
+		sym.Assume(sym.Not(sym.And(sym.EqStr(u, goodU), sym.EqStr(t, goodT))))
+		other := CapabilityMap{KeyUser: value.String(u), KeyToken: value.String(t)}
+		a.inject(zzFrame(net.Call, 0, 0, 8, 5, zzCapPayload(other)))
+		sym.Quiesce()
+	}
+	a.inject(zzFrame(net.Call, 1, 1, 0, 6, nil))
+	sym.Quiesce()
+	sym.Assert(probe.count() == 1, "earlier-connection-authentication-leaked")
+	sym.Reach("history-done")
+}
